@@ -1503,6 +1503,11 @@ class Executor:
             del self.pc_tags[n_pc:]
         if len(self.trace) != n_trace:
             raise OutOfSubset("branching inside the element expression of a comprehension over a symbolic sequence", e)
+        if isinstance(body, V.Opaque):
+            body = body.term
+        if V.is_z3(body) and not z3.is_arith(body) and not z3.is_bool(body) and body.sort().kind() == z3.Z3_UNINTERPRETED_SORT:
+            # element of an uninterpreted sort (result of an abstract callable on the element): the new list is the array lambda of these terms
+            return Seq("list", None, z3.simplify(n), z3.Lambda([k], body))
         if not V.is_num(body):
             raise OutOfSubset("non-numeric element expression in a comprehension over a symbolic sequence", e)
         body = V.to_z3(V.bool_to_int(body))
